@@ -64,6 +64,9 @@ enum Mutn {
     DupField(Path),
     Replace(Path, u8),
     Swap(Path, usize, usize),
+    /// an n-dimensional array document {"dim": [..], "data": [..]} given another shape with the same / a
+    /// compatible element count
+    Reshape(Path, Vec<usize>),
 }
 
 fn replacement(k: u8) -> Value {
@@ -133,6 +136,53 @@ fn mutations(v: &Value) -> Vec<Mutn> {
             // a container may also be replaced wholesale by a scalar / null / empty containers
             for k in [0u8, 5, 6, 7] {
                 out.push(Mutn::Replace(p.clone(), k));
+            }
+        }
+    }
+    // every other shape of each array document: same element count factorised differently, rank changed,
+    // zero-size shapes
+    {
+        let mut objs: Vec<Path> = vec![];
+        fn find(v: &Value, path: &mut Path, out: &mut Vec<Path>) {
+            match v {
+                Value::Object(m) => {
+                    if m.get("dim").map(|d| d.is_array()).unwrap_or(false) && m.get("data").map(|d| d.is_array()).unwrap_or(false) {
+                        out.push(path.clone());
+                    }
+                    for (k, c) in m.iter() {
+                        path.push(Seg::Key(k.clone()));
+                        find(c, path, out);
+                        path.pop();
+                    }
+                }
+                Value::Array(a) => {
+                    for (i, c) in a.iter().enumerate() {
+                        path.push(Seg::Idx(i));
+                        find(c, path, out);
+                        path.pop();
+                    }
+                }
+                _ => {}
+            }
+        }
+        find(v, &mut vec![], &mut objs);
+        for p in objs {
+            let mut vv = v.clone();
+            let o = get_mut(&mut vv, &p).unwrap();
+            let dim: Vec<usize> = o["dim"].as_array().unwrap().iter().filter_map(|x| x.as_u64().map(|u| u as usize)).collect();
+            let count = o["data"].as_array().unwrap().len();
+            let mut shapes: Vec<Vec<usize>> = vec![vec![count], vec![1, count], vec![count, 1], vec![1, 1, count], vec![0, count.max(1)], vec![count.max(1), 0]];
+            for a in 1..=count {
+                if count % a == 0 {
+                    shapes.push(vec![a, count / a]);
+                }
+            }
+            shapes.sort();
+            shapes.dedup();
+            for sh in shapes {
+                if sh != dim {
+                    out.push(Mutn::Reshape(p.clone(), sh));
+                }
             }
         }
     }
@@ -211,6 +261,13 @@ fn apply_mut(v: &mut Value, m: &Mutn, dupfield: &mut Vec<Path>) -> bool {
                 true
             }
             None => false,
+        },
+        Mutn::Reshape(p, shape) => match get_mut(v, p) {
+            Some(Value::Object(o)) if o.contains_key("dim") => {
+                o["dim"] = json!(shape);
+                true
+            }
+            _ => false,
         },
         Mutn::Swap(p, i, j) => match get_mut(v, p) {
             Some(Value::Array(a)) if *j < a.len() => {
@@ -1002,7 +1059,7 @@ fn evidence_meta(ctx: &Ctx, ncases: usize) -> Meta {
          left_n, right_n in 0..k+1 x allow_lsq, for f64 and Dual data. JSON: for 17 valid documents covering the 10 \
          object kinds, through the typed and the tagged entry point: EVERY single mutation (delete a field or element, \
          duplicate an element, duplicate a field textually, replace a leaf by each of {0,-1,1e308,\"\",\"zzz\",null,[], \
-         {},true} or a container by {0,null,[],{}}, swap two sibling values) and, for documents of <= 26 (44) nodes, \
+         {},true} or a container by {0,null,[],{}}, swap two sibling values, give an array document every other shape of compatible element count) and, for documents of <= 26 (44) nodes, \
          EVERY pair of mutations. Oracle: the call returns (a panic or an abnormal child exit is a violation); Ok(v) => \
          v satisfies its shape invariants (Dual: |vars| = |dual|; Dual2: also n x n; FXRates: n = quotes + 1, n x n, \
          quoted pairs answer; PPSpline: n = |t| - k, |c| = n, coefficients well-formed; NamedCal: behaves as its name). \
